@@ -260,7 +260,7 @@ def verify_unit(vc_path, tier='quick', with_vacuity=True, rlimit=None, keep=True
                 if fnn:
                     failed_fns.add(fnn.replace('__vac', ''))
         for fn in em.functions:
-            if fn['external_body'] or fn['novac'] or fn['ensures'] == 0:
+            if fn['external_body'] or fn['novac'] or fn['ensures'] == 0 or '/' in fn['id']:
                 continue
             r.vacuity_checked += 1
             if fn['id'] not in failed_fns:
